@@ -18,31 +18,46 @@ func (s *Store) maxSizeEnforcer(maxSize int64) {
 			if !ok {
 				return
 			}
-			// Add message to all.
+			// Add message to all, unless its removal overtook this notice.
 			m := md.msg
-			el := all.PushBack(m)
-			m.el = el
+			if m.gone {
+				close(md.done)
+				continue
+			}
+			m.el = all.PushBack(m)
+			m.accounted = true
 			curSize += int64(m.Size())
-			for curSize > maxSize {
+			for curSize > maxSize && all.Len() > 0 {
 				// Remove oldest message.
 				el := all.Front()
 				all.Remove(el)
 				m := el.Value.(*Message)
-				if s.removeMessage(m.mailbox, m.id) != nil {
-					curSize -= int64(m.Size())
-				}
+				m.el = nil
+				// removeMessage returns nil when a client removed the message concurrently;
+				// either way it is gone now, and the client's removal notice that follows
+				// finds the account already settled.
+				s.removeMessage(m.mailbox, m.id)
+				curSize -= int64(m.Size())
+				m.accounted = false
+				m.gone = true
 			}
 			close(md.done)
 		case md, ok := <-s.remove:
 			if !ok {
 				return
 			}
-			// Remove message from all.
+			// Remove message from all.  The notice may arrive before the delivery notice of
+			// the same message (the message is visible as soon as it is in its mailbox).
 			m := md.msg
-			el := all.Remove(m.el)
-			if el != nil {
-				curSize -= int64(m.Size())
+			if m.el != nil {
+				all.Remove(m.el)
+				m.el = nil
 			}
+			if m.accounted {
+				curSize -= int64(m.Size())
+				m.accounted = false
+			}
+			m.gone = true
 			close(md.done)
 		}
 	}
